@@ -423,7 +423,12 @@ pub async fn run(args: &Args, rep: &mut Reporter) {
     let mut rng = Rng::new(args.shard_seed() ^ 0xC13);
     let per_op_points = args.by_tier(6usize, 64usize);
     let histories = args.by_tier(1usize, 4usize);
-    let sys_ops: BTreeSet<&str> = ["create", "update", "delete", "move", "rename", "flags", "compact", "change_folder_pw", "merge", "force_merge", "archive", "create_folder"].into_iter().collect();
+    // can this environment trace at all? (ptrace may be forbidden in a sandbox)
+    let strace_ok = Command::new("strace").arg("-o").arg("/dev/null").arg("true").output().map(|o| o.status.success()).unwrap_or(false);
+    if !strace_ok {
+        rep.count("strace_unavailable", 1);
+    }
+    let sys_ops: BTreeSet<&str> = if !strace_ok { BTreeSet::new() } else { ["create", "update", "delete", "move", "rename", "flags", "compact", "change_folder_pw", "merge", "force_merge", "archive", "create_folder"].into_iter().collect() };
     for (ci, config) in Config::matrix().iter().enumerate().filter(|(i, _)| i % 2 == 0) {
         let backend = config.backend.name();
         let pdir = args.dir.join(format!("pristine{ci}"));
